@@ -1,5 +1,5 @@
 /-
-  Props.C06 — ACL authorization: what the decision procedure (model of AuthorizeConnection) guarantees
+  Props.C06 — ACL authorization: the decision procedure (model of AuthorizeConnection) is sound — and complete —
   against the declarative policy, for all rule sets, commands, key and channel vectors and for every
   glob-matching function.
 -/
@@ -8,33 +8,27 @@ import SugarModel.Generated.CommandTable
 namespace Sugar.Props.C06
 open Sugar Sugar.Acl Sugar.Spec
 
-/-- the inputs outside the listed findings: on these the procedure is sound w.r.t. the policy -/
-structure Regular (gmatch : Bytes → Bytes → Bool) (u : User) (m : CmdMeta) : Prop where
-  /-- the user is enabled (finding `disabled-user-stays-authorized`) -/
-  enabled : u.enabled = true
-  /-- the read keys are matched all or none (finding `any-read-key-suffices`) -/
-  readsUniform : (m.readKeys.any fun k => u.readKeys.any fun g => gmatch g k) = true →
-                 (m.readKeys.all fun k => u.readKeys.any fun g => gmatch g k) = true
-  /-- likewise the write keys (finding `any-write-key-suffices`) -/
-  writesUniform : (m.writeKeys.any fun k => u.writeKeys.any fun g => gmatch g k) = true →
-                  (m.writeKeys.all fun k => u.writeKeys.any fun g => gmatch g k) = true
-  /-- a user that reads keys has at least one read pattern (finding `empty-read-pattern-list-allows-reads`) -/
-  readPatterns : m.readKeys.isEmpty = false → u.readKeys.isEmpty = false
-  /-- pub/sub commands name no keys (finding `pubsub-category-skips-key-checks`) -/
+/-- the commands outside the listed findings that are still open. All three conditions speak of the command
+    (its categories and what its extractor names), none of the user: the rule set is arbitrary. -/
+structure Regular (m : CmdMeta) : Prop where
+  /-- pub/sub commands name no keys (open finding `pubsub-category-skips-key-checks`: the procedure returns
+      after the channel checks of a command that carries the pubsub category) -/
   pubsubNoKeys : m.cats.contains (b "pubsub") = true → m.readKeys = [] ∧ m.writeKeys = []
-  /-- only pub/sub commands name channels (true of every row of the command table) -/
+  /-- only pub/sub commands name channels (true of every row of the command table, `channels_only_pubsub_rows`) -/
   channelsOnlyPubsub : m.cats.contains (b "pubsub") = false → m.channels = []
   /-- "ack" is exempted by the code and is not a command of the table (`no_ack_command`) -/
   notAck : (toLower m.comm == b "ack") = false
 
-/-- **Soundness of the gate (authorize_sound_partial).** When authentication is required and the
-    procedure lets a command through, the declarative policy allows it: handshake command, or the
-    connection is authenticated as an enabled user, every category and the command are allowed, every
-    read key matches a read pattern, every write key a write pattern, every channel is allowed and
-    not excluded — for all rule sets, all commands, all key/channel vectors, all `gmatch`, outside the
-    `Regular` exclusions (each exclusion is a listed finding with a witness below). -/
-theorem authorize_sound_partial (gmatch : Bytes → Bytes → Bool) (auth : Bool) (u : User) (m : CmdMeta)
-    (hreg : Regular gmatch u m) (h : authorize gmatch true auth u m = none) :
+/-- **Soundness of the gate.** When authentication is required and the procedure lets a command through, the
+    declarative policy allows it: handshake command, or the connection is authenticated as an *enabled* user,
+    every category and the command are allowed, EVERY read key matches a read pattern, EVERY write key a write
+    pattern, every channel is allowed and not excluded — for all users (every rule set, enabled or not, normalised
+    or not, with or without patterns), all key and channel vectors, all `gmatch`. What remains is `Regular m`, a
+    hypothesis on the command alone: two facts of the command table and the one finding of the gate that is
+    still open (keys named by a pub/sub-category command). The former hypotheses on the user — enabled, keys
+    matched all-or-none, a non-empty read-pattern list — are gone with the defects they fenced off. -/
+theorem authorize_sound (gmatch : Bytes → Bytes → Bool) (auth : Bool) (u : User) (m : CmdMeta)
+    (hreg : Regular m) (h : authorize gmatch true auth u m = none) :
     policyAllowed gmatch auth u m.comm m.cats ⟨m.readKeys, m.writeKeys, m.channels⟩ = true := by
   unfold policyAllowed
   cases hex : codeExempt m.comm with
@@ -52,10 +46,10 @@ theorem authorize_sound_partial (gmatch : Bytes → Bytes → Bool) (auth : Bool
       cases x1 <;> cases x2 <;> cases x3 <;> cases x4 <;> simp
     rw [this]; rfl
   | false =>
-    obtain ⟨hauth, hci, hce, hmi, hme, hps, hdata⟩ := authorize_none_inv gmatch auth u m hex h
+    obtain ⟨hauth, hen, hci, hce, hmi, hme, hps, hdata⟩ := authorize_none_inv gmatch auth u m hex h
     have hcats := catAllowed_of u m hci hce
     have hcmd := cmdAllowed_of u m hmi hme
-    rw [hauth, hreg.enabled, hcats, hcmd]
+    rw [hauth, hen, hcats, hcmd]
     simp only [Bool.true_and, Bool.or_eq_true, Bool.and_eq_true]
     right
     cases hp : m.cats.contains (b "pubsub") with
@@ -75,15 +69,146 @@ theorem authorize_sound_partial (gmatch : Bytes → Bytes → Bool) (auth : Bool
         obtain ⟨hnk, hrd, hwd⟩ := hdata hp hk
         refine ⟨⟨?_, ?_⟩, ?_⟩
         · right; simp [hnk]
-        · apply keys_all_of_not_denied _ _ _ hreg.readsUniform
-          unfold readDenied at hrd
-          cases hre : m.readKeys.isEmpty with
-          | true => rfl
-          | false =>
-            rw [hre, hreg.readPatterns hre] at hrd
-            simpa using hrd
-        · apply keys_all_of_not_denied _ _ _ hreg.writesUniform
-          exact hwd
+        · exact keys_all_of_not_denied _ _ _ hrd
+        · exact keys_all_of_not_denied _ _ _ hwd
+
+/-- **Completeness of the gate**: the procedure refuses nothing the policy allows — for every user and every
+    command, with no hypothesis at all; on `Regular` commands the decision *is* the policy. -/
+theorem authorize_complete (gmatch : Bytes → Bytes → Bool) (auth : Bool) (u : User) (m : CmdMeta)
+    (h : policyAllowed gmatch auth u m.comm m.cats ⟨m.readKeys, m.writeKeys, m.channels⟩ = true) :
+    authorize gmatch true auth u m = none := by
+  unfold authorize
+  cases hex : codeExempt m.comm with
+  | true => simp
+  | false =>
+    have hne : exempt m.comm = false := by
+      unfold codeExempt at hex
+      unfold exempt
+      revert hex
+      generalize (toLower m.comm == b "ack") = x0
+      generalize (toLower m.comm == b "ping") = x1
+      generalize (toLower m.comm == b "echo") = x2
+      generalize (toLower m.comm == b "hello") = x3
+      generalize (toLower m.comm == b "auth") = x4
+      cases x0 <;> cases x1 <;> cases x2 <;> cases x3 <;> cases x4 <;> simp
+    unfold policyAllowed at h
+    rw [hne, Bool.false_or] at h
+    simp only [Bool.and_eq_true] at h
+    obtain ⟨⟨⟨⟨⟨⟨⟨hauth, hen⟩, hcats⟩, hcmd⟩, hnk⟩, hr⟩, hw⟩, hch⟩ := h
+    have hci : catsIncluded u m = true := catsIncluded_of u m hcats
+    have hce : catsExcluded u m = false := catsExcluded_of u m hcats
+    have hmi : cmdIncluded u m = true := cmdIncluded_of u m hcmd
+    have hme : cmdExcluded u m = false := cmdExcluded_of u m hcmd
+    have hrd : readDenied gmatch u m = false := by
+      unfold readDenied; rw [keys_denied_iff, hr]; rfl
+    have hwd : writeDenied gmatch u m = false := by
+      unfold writeDenied; rw [keys_denied_iff, hw]; rfl
+    have hcd : chanDenied gmatch u m = false := chanDenied_of gmatch u m hch
+    simp only [hauth, hen, hci, hce, hmi, hme, hrd, hwd, hcd, Bool.not_true, Bool.false_eq_true, if_false]
+    cases hp : m.cats.contains (b "pubsub") with
+    | true => simp
+    | false =>
+      simp only [Bool.false_eq_true, if_false]
+      cases hk : (m.readKeys.isEmpty && m.writeKeys.isEmpty) with
+      | true => simp
+      | false =>
+        rw [hk, Bool.false_or] at hnk
+        simp only [Bool.not_eq_true'] at hnk
+        simp [hnk]
+
+/-- the gate decides the policy, exactly -/
+theorem authorize_iff_policy (gmatch : Bytes → Bytes → Bool) (auth : Bool) (u : User) (m : CmdMeta) (hreg : Regular m) :
+    authorize gmatch true auth u m = none ↔
+      policyAllowed gmatch auth u m.comm m.cats ⟨m.readKeys, m.writeKeys, m.channels⟩ = true :=
+  ⟨authorize_sound gmatch auth u m hreg, authorize_complete gmatch auth u m⟩
+
+/-- **Every key, not one of them** (the repaired steps 8 and 9; the former classes `any-read-key-suffices`,
+    `any-write-key-suffices` and `empty-read-pattern-list-allows-reads`). A command outside the pubsub category
+    that passes the gate has each of its read keys matched by one of the user's read patterns and each of its
+    write keys by one of the write patterns — for every user, every key vector, every `gmatch`; no hypothesis on
+    the command beyond not being a handshake command. -/
+theorem every_key_matches (gmatch : Bytes → Bytes → Bool) (auth : Bool) (u : User) (m : CmdMeta)
+    (hex : codeExempt m.comm = false) (hp : m.cats.contains (b "pubsub") = false)
+    (h : authorize gmatch true auth u m = none) :
+    (∀ k ∈ m.readKeys, ∃ g ∈ u.readKeys, gmatch g k = true) ∧
+    (∀ k ∈ m.writeKeys, ∃ g ∈ u.writeKeys, gmatch g k = true) := by
+  obtain ⟨_, _, _, _, _, _, _, hdata⟩ := authorize_none_inv gmatch auth u m hex h
+  cases hk : (m.readKeys.isEmpty && m.writeKeys.isEmpty) with
+  | true =>
+    simp only [Bool.and_eq_true, List.isEmpty_iff] at hk
+    simp [hk.1, hk.2]
+  | false =>
+    obtain ⟨_, hrd, hwd⟩ := hdata hp hk
+    have hr := keys_all_of_not_denied _ _ _ hrd
+    have hw := keys_all_of_not_denied _ _ _ hwd
+    rw [List.all_eq_true] at hr hw
+    exact ⟨fun k hk => List.any_eq_true.mp (hr k hk), fun k hk => List.any_eq_true.mp (hw k hk)⟩
+
+/-- one key outside the patterns is enough for a refusal, wherever it stands in the vector -/
+theorem unmatched_read_key_refused (gmatch : Bytes → Bytes → Bool) (auth : Bool) (u : User) (m : CmdMeta) (k : Bytes)
+    (hex : codeExempt m.comm = false) (hp : m.cats.contains (b "pubsub") = false)
+    (hk : k ∈ m.readKeys) (hno : ∀ g ∈ u.readKeys, gmatch g k = false) :
+    authorize gmatch true auth u m ≠ none := by
+  intro h
+  obtain ⟨g, hg, hm⟩ := (every_key_matches gmatch auth u m hex hp h).1 k hk
+  rw [hno g hg] at hm
+  exact absurd hm (by decide)
+
+theorem unmatched_write_key_refused (gmatch : Bytes → Bytes → Bool) (auth : Bool) (u : User) (m : CmdMeta) (k : Bytes)
+    (hex : codeExempt m.comm = false) (hp : m.cats.contains (b "pubsub") = false)
+    (hk : k ∈ m.writeKeys) (hno : ∀ g ∈ u.writeKeys, gmatch g k = false) :
+    authorize gmatch true auth u m ≠ none := by
+  intro h
+  obtain ⟨g, hg, hm⟩ := (every_key_matches gmatch auth u m hex hp h).2 k hk
+  rw [hno g hg] at hm
+  exact absurd hm (by decide)
+
+/-- **An empty read-pattern list allows no read** (former class `empty-read-pattern-list-allows-reads`) -/
+theorem empty_read_patterns_refuse_reads (gmatch : Bytes → Bytes → Bool) (auth : Bool) (u : User) (m : CmdMeta)
+    (hex : codeExempt m.comm = false) (hp : m.cats.contains (b "pubsub") = false)
+    (hu : u.readKeys = []) (hr : m.readKeys ≠ []) :
+    authorize gmatch true auth u m ≠ none := by
+  cases hm : m.readKeys with
+  | nil => exact absurd hm hr
+  | cons k r =>
+    apply unmatched_read_key_refused gmatch auth u m k hex hp (by rw [hm]; exact List.mem_cons_self ..)
+    intro g hg
+    rw [hu] at hg
+    cases hg
+
+/-- **A disabled user is always refused** (former class `disabled-user-stays-authorized`): whatever its rules,
+    whatever the command names, authenticated or not — every command but the handshake ones is refused, and the
+    refusal is `unauthenticated` or `disabled`. -/
+theorem disabled_user_refused (gmatch : Bytes → Bytes → Bool) (auth : Bool) (u : User) (m : CmdMeta)
+    (hex : codeExempt m.comm = false) (hd : u.enabled = false) :
+    authorize gmatch true auth u m = some .unauthenticated ∨ authorize gmatch true auth u m = some .disabled := by
+  unfold authorize
+  rw [hex, hd]
+  cases auth <;> simp
+
+/-- … at the dispatcher's gate: the connection of a user that has been switched off runs nothing -/
+theorem disabled_connection_refused (a : AclState) (cid : Nat) (c : Conn) (m : CmdMeta)
+    (hrp : a.requirePass = true) (hc : a.conns.get cid = some c) (hd : (a.get c.user).enabled = false)
+    (hex : codeExempt m.comm = false) : aclGate a cid m ≠ none := by
+  unfold aclGate
+  simp only [hc, Option.getD_some, hrp]
+  rcases disabled_user_refused globMatch c.authenticated (a.get c.user) m hex hd with h | h <;> rw [h] <;> simp
+
+/-- **Switching a user off takes effect on its open connections**: after ACL SETUSER name … off on an existing
+    user, every connection that was authenticated as that user — before the edit — is refused every command but
+    the handshake ones, whatever the user's rules allow. -/
+theorem switched_off_user_refused (a : AclState) (name : Bytes) (rules : List Bytes) (uid cid : Nat) (c : Conn) (m : CmdMeta)
+    (hrp : a.requirePass = true) (hf : a.find name = some uid)
+    (hc : a.conns.get cid = some c) (hcu : c.user = uid)
+    (hok : (setUser a (name :: (rules ++ [b "off"]))).2 = .ok)
+    (hex : codeExempt m.comm = false) :
+    aclGate (setUser a (name :: (rules ++ [b "off"]))).1 cid m ≠ none := by
+  have hd := setUser_off_disables a name rules uid hf hok
+  have hconns : (setUser a (name :: (rules ++ [b "off"]))).1.conns = a.conns := by
+    unfold setUser; simp only [hf]; split <;> rfl
+  have hrp' : (setUser a (name :: (rules ++ [b "off"]))).1.requirePass = true := by
+    unfold setUser; simp only [hf]; split <;> exact hrp
+  apply disabled_connection_refused _ cid c m hrp' (by rw [hconns]; exact hc) (by rw [hcu]; exact hd) hex
 
 /-- the code's extra exemption "ack" names no command of the regenerated table -/
 theorem no_ack_command : (Gen.commandTable.all fun r => r.name != "ack" && r.sub != "ack") = true := by
@@ -131,30 +256,36 @@ theorem denied_no_effect (a : AclState) (cid : Nat) (cmd : List Bytes) (sha : By
           rw [hg] at h
           exact absurd h (handler_not_denied a cid _ sha d)
 
-/-! ### the exclusions are real (model witnesses; each is a listed finding, replayed on the implementation) -/
+/-! ### the repaired decisions on the inputs of the former findings, and non-vacuity -/
 
 def rwUser : User := { name := b "u", inclCats := [star], inclCmds := [star], readKeys := [b "a*"], writeKeys := [b "a*"], inclChans := [star] }
 
-/-- one matching key among several is enough -/
-theorem any_read_key_suffices_witness :
-    authorize globMatch true true rwUser ⟨b "mget", [b "read"], [b "a1", b "b1"], [], []⟩ = none ∧
+/-- one matching key among several is no longer enough: MGET a1 b1 under %R~a* is refused, and the policy agrees -/
+theorem mixed_read_keys_refused :
+    authorize globMatch true true rwUser ⟨b "mget", [b "read"], [b "a1", b "b1"], [], []⟩ = some .readKeys ∧
     policyAllowed globMatch true rwUser (b "mget") [b "read"] ⟨[b "a1", b "b1"], [], []⟩ = false := by decide
 
-theorem any_write_key_suffices_witness :
-    authorize globMatch true true rwUser ⟨b "mset", [b "write"], [], [b "a1", b "b1"], []⟩ = none ∧
+theorem mixed_write_keys_refused :
+    authorize globMatch true true rwUser ⟨b "mset", [b "write"], [], [b "a1", b "b1"], []⟩ = some .writeKeys ∧
     policyAllowed globMatch true rwUser (b "mset") [b "write"] ⟨[], [b "a1", b "b1"], []⟩ = false := by decide
 
-/-- a disabled user's established connection is still let through -/
-theorem disabled_user_witness :
-    authorize globMatch true true { rwUser with enabled := false } ⟨b "get", [b "read"], [b "a1"], [], []⟩ = none ∧
-    policyAllowed globMatch true { rwUser with enabled := false } (b "get") [b "read"] ⟨[b "a1"], [], []⟩ = false := by decide
+/-- a disabled user's established connection is refused -/
+theorem disabled_user_example :
+    authorize globMatch true true { rwUser with enabled := false } ⟨b "get", [b "read"], [b "a1"], [], []⟩ = some .disabled := by decide
 
-/-- an empty read-pattern list lets every read through -/
-theorem empty_read_patterns_witness :
-    authorize globMatch true true { rwUser with readKeys := [] } ⟨b "get", [b "read"], [b "zzz"], [], []⟩ = none ∧
-    policyAllowed globMatch true { rwUser with readKeys := [] } (b "get") [b "read"] ⟨[b "zzz"], [], []⟩ = false := by decide
+/-- an empty read-pattern list refuses the read -/
+theorem empty_read_patterns_example :
+    authorize globMatch true true { rwUser with readKeys := [] } ⟨b "get", [b "read"], [b "zzz"], [], []⟩ = some .readKeys := by decide
 
-/-- non-vacuity of `authorize_sound_partial`: a regular input that is allowed -/
+/-- non-vacuity of `authorize_sound`: regular commands that are allowed — one key, and several keys that all match -/
 example : authorize globMatch true true rwUser ⟨b "get", [b "read"], [b "a1"], [], []⟩ = none := by decide
+example : authorize globMatch true true rwUser ⟨b "mget", [b "read"], [b "a1", b "a2"], [b "a3"], []⟩ = none := by decide
+example : Regular ⟨b "mget", [b "read"], [b "a1", b "a2"], [b "a3"], []⟩ := ⟨by decide, by decide, by decide⟩
+
+/-- the hypothesis that remains is needed: a pub/sub-category command naming a key outside the patterns passes
+    the gate (open finding `pubsub-category-skips-key-checks`) -/
+theorem pubsub_keys_unchecked_witness :
+    authorize globMatch true true rwUser ⟨b "pubsub", [b "pubsub", b "slow"], [b "zzz"], [], []⟩ = none ∧
+    policyAllowed globMatch true rwUser (b "pubsub") [b "pubsub", b "slow"] ⟨[b "zzz"], [], []⟩ = false := by decide
 
 end Sugar.Props.C06
